@@ -32,14 +32,20 @@ PROP = {
             "a usable SourceError whose message contains `include nesting too deep`, want=ok: exactly the expected output, want=err:kind: "
             "that kind and not the depth error; the reference include (bounded by the same documented limit of 100) agrees on "
             "success/failure and output. The first case of (b) is first run in a killable worker process: if that process dies (the "
-            "unrepaired code) the clause include-cycle-process-death is reported and (b) is skipped.",
+            "unrepaired code) the clause include-cycle-process-death is reported and (b) is skipped. (c) implementation only, no case "
+            "line and no model answer (shard 0): ONE engine renders in sequence, in three orders, main templates parsed with paths in "
+            "different directories that include the same shared file, whose own relative include resolves against the directory of the "
+            "main template's path, on disk and through ParseTemplateAndCache; every render must equal the render on a fresh engine and "
+            "the expected result (reported under include-vs-reference).",
     "trusted_base": COMMON_TB + ["POSIX path/filepath (Clean/Join/Dir) and the operating system's file lookup",
                                  "the reference include uses the engine's own expression evaluation and ctx.Bindings()"],
     "assumptions": ["relative names resolve against the directory of the path the MAIN template was parsed with, also inside "
                     "included files (RenderFile compiles an included file with the include tag's location)",
                     "includes nest at most 100 deep (maxIncludeDepth of render/context.go): an include tag in a render that is already "
-                    "nested in 100 include tags fails with an error, so cyclic include graphs end in an error (C01 "
-                    "run_terminates_all_layouts, include_cycle_fails); the equality with a direct render of the file's content is "
+                    "nested in 100 include tags fails with an error, so cyclic include graphs end in an error "
+                    "(run_terminates_all_layouts of Proofs.C01Depth, audited under C01: every layout ends in output, an error or an "
+                    "explicit unmodelled marker, never a panic; include_cycle_fails of Proofs.C14Depth: a file that includes itself "
+                    "unconditionally is an error at every fuel); the equality with a direct render of the file's content is "
                     "stated below the limit, through the fuel: including at fuel n+1 is rendering the file at fuel n"],
 }
 
@@ -51,17 +57,22 @@ TEXT = {
               'located compile error when the source on disk does not compile (include_inner_compile_err). Errors through include: a handler '
               'failure that is not a parser.Error becomes an error located at the include tag of the INCLUDING template (tag line, template '
               'path) with the handler\'s error as cause, for every handler (include_plain_err_located) - a file neither on disk nor cached '
-              '(include_missing_located) and a read error (include_read_err_located), at every include depth; a located error of the handler '
+              '(include_missing_located) and a read error (include_read_err_located), at every fuel n+1, i.e. at every include depth '
+              'below the limit (at fuel 0 the depth error comes first, include_depth_error below); a located error of the handler '
               'leaves the include node as WrapError(e, tag), which is e itself whenever e has a line or a path '
-              '(include_located_err_passes); a file that is found and does not compile fails the render with its compile error, lines '
-              'counted from the tag\'s line (include_compile_err_located); a render-time error inside the file (Proofs.C14Errors, '
+              '(include_located_err_passes: e.line != 0, or e carries the path flag and the template has a path); a file that is found '
+              '(disk, else cache) and does not compile fails the render with WrapError(e, tag) of its compile error e - e itself under '
+              'the same condition -, lines counted from the tag\'s line (include_compile_err_located, fuel n+1); a render-time error inside the file (Proofs.C14Errors, '
               'include_render_err_located): the file is found and compiles at the tag\'s line to root, rendering root with the includer\'s '
-              'variables fails with e - then e is a located error, located at firstFailure of root (C07: the first failing construct OF THE '
+              'variables (at fuel n; the include node at fuel n+1) fails with e - then e is a located error, located at firstFailure of root (C07: the first failing construct OF THE '
               'FILE), and the include node fails with WrapError(e, tag) = e when e has a line or a path: the error is not re-located at the '
               'include tag; from the bytes of a file without include tags (include_render_err_at_file_token): e points at a tag or object '
               'token of the file, e.line = tag line + newlines of the file before that token, and e names the path of the INCLUDING '
               'template, not the file\'s name (RenderFile compiles with the tag\'s SourceLoc); a break/continue that no loop of the file '
-              'consumed is handed to the including template, located at its tag in the file, and nothing is inserted '
+              'consumed (the render of the file ends with a sentinel status st) is handed to the including template as st re-wrapped at '
+              'the include tag (Status.wrap = WrapError(., tag), which keeps the location the sentinel carries when it has a line or a '
+              'path; that location is the end site of the file\'s render trace, traceRoot(...).fin = st.site - in the evaluated example '
+              'the break tag of the file), the writer state is untouched and nothing is inserted '
               '(include_sentinel_passes); for a file that is read, the cache is irrelevant, and '
               'a cached source of a file that does not exist acts as that file\'s content (disk_over_cache, cache_fallback); for a '
               "file on disk that compiles and renders normally the handler returns exactly the render of the file's content with the "
@@ -70,15 +81,20 @@ TEXT = {
               'itself: runStd). At the limit (Proofs.C14Depth): with no level left every include tag whose argument evaluates to a string '
               'fails with the depth error located at that tag, whatever the file system holds - the file is not looked at, the '
               'argument is evaluated first (include_depth_error); a file that includes itself unconditionally (its source compiles '
-              'to literal text, possibly none, followed by an include tag with the same literal name; anything after it) makes '
-              '{% include "a" %} an ERROR at every fuel, start line and environment - never output, never `unmodelled` - with no '
-              'acyclicity hypothesis (include_cycle_fails); for the file T{% include "a" %} in closed form: at fuel n the render is the depth '
+              'to literal text, possibly none, followed by an include tag with the same literal name; anything after it) makes the '
+              'one-tag template {% include "a" %} (either quote, a name without that quote byte, good delimiters, the tag Clean for them) '
+              'an ERROR at every fuel, start line and environment, for every value and output layer - never output, never `unmodelled`, '
+              'never a panic - with no '
+              'acyclicity hypothesis (include_cycle_fails; the error itself is not named by this theorem); for the file T{% include "a" %} '
+              '(T and the tag Clean) in closed form: at fuel n the render is the depth '
               'error at line (tag line + n x newlines of T), i.e. raised by the n-th nested copy of the file (self_include_depth_error; '
-              'self_include_fails_at_100 for the standard engine). Closed form (include_denotation, include_denotation_run, include_denotation_mk): when the argument '
+              'its instance n = 100 for the standard engine runStd is self_include_fails_at_100 of Proofs.C01Depth, audited under C01, not '
+              'under C14). Cycles through several files and cycles entered on a branch are covered by the incl stream (family b) and by '
+              'run_terminates_all_layouts (C01), not by a C14 theorem that names the error. Closed form (include_denotation, include_denotation_run, include_denotation_mk): when the argument '
               'evaluates to a string, the joined path has a source on disk or (only if no such file exists) in the cache, the '
               'source compiles and renders normally with a copy of the current variables to out, the include node is exactly '
               'one VERBATIM write of out to the includer\'s writer (TagNode.render hands every tag verbatimWriter{w} since the repair '
-              'fixes/verbatim-output-not-trimmed) and leaves the variables as they were: on a writer that does not fail the text pending '
+              'fixes/verbatim-output-not-trimmed.patch, /repo 4126d59) and leaves the variables as they were: on a writer that does not fail the text pending '
               'before the tag and then the bytes of out go out unchanged whatever trim flag a preceding hyphen left, and nothing of out stays '
               'pending for a following left hyphen (include_denotation_run) - "inserts exactly the output that rendering that file\'s content '
               'directly would give" also next to a neighbour\'s hyphen, where the unrepaired code stripped white space at the edge of the '
@@ -99,6 +115,8 @@ TEXT = {
               '(include_read_err_located) is not produced by any stream: a name that resolves to a directory is judged by the both-fail '
               'agreement with the reference include only. The path an error from an included file names is the including template\'s - '
               'this is what the code does, and it is recorded as an interpretation, not flagged.'),
-    "technique": ('Lean 4 proof (unfolding of the include handler of the render model) + model/implementation correspondence + '
+    "technique": ('Lean 4 proof (unfolding of the include handler of the render model; induction on the include fuel for the depth '
+              'theorems; the source-to-tree helper lemma run_spell of Proofs/SrcItems.lean, over the end-to-end front end of C19, for the '
+              'source-level ones) + model/implementation correspondence + '
               'differential oracle against a reference include'),
 }
